@@ -5,6 +5,12 @@ from engine.report import Report
 from props import seminaive as S
 
 MUTANTS = [
+    ('updater-flag-of-last-column', 'src/interpreter/Util.h', '''            if (old_t[i] != new_t[i]) {
+                changed = true;
+                old_t[i] = new_t[i];
+            }''', '''            changed = (old_t[i] != new_t[i]);
+            old_t[i] = new_t[i];''', 'R4'),
+    ('delta-needs-all-columns-to-change', S.UT, 'mk<ram::Constraint>(BinaryConstraintOp::EQ, mk<ram::TupleElement>(1, i), clone(lub));', 'mk<ram::Constraint>(BinaryConstraintOp::NE, mk<ram::TupleElement>(1, i), clone(lub));', 'R1'),
     ('lub-scans-main-instead-of-new', S.UT, '    op = mk<ram::Scan>(newName, 0, std::move(op));\n    appendStmt(stmts, mk<ram::Query>(std::move(op)));\n\n    // clear @new()',
      '    op = mk<ram::Scan>(name, 0, std::move(op));\n    appendStmt(stmts, mk<ram::Query>(std::move(op)));\n\n    // clear @new()', 'R1'),
     ('lub-new-not-cleared', S.UT, '    // clear @new() now that we no longer need it\n    appendStmt(stmts, mk<ram::Clear>(newName));\n', '', 'R1'),
@@ -17,8 +23,82 @@ MUTANTS = [
 ]
 
 
+def rule_updater_flag(rep):
+    """R4: a lattice relation is stored once per key; an insert of an existing key goes through the tree's Updater, whose result tells
+    interpreter::Relation::insert whether the other indexes must be updated too.  The flag must be monotone over the lattice columns
+    (set, never cleared, inside the loop) and every differing column must be overwritten."""
+    import os
+    from engine.facts import kids, walk, strip, is_call, call_args, expr_key
+    iu, rel = facts.extract([(os.path.join(facts.VERIF, 'tu', 'prov_instances.cpp'), r'interpreter/Util\.h$|prov_instances\.cpp$', r'Updater'),
+                             ('src/synthesiser/Relation.cpp', r'synthesiser/Relation\.cpp$', r'generateTypeStruct')])
+    rep.add_units([iu, rel])
+    fs = [f for f in iu.functions if f.d.get('cls') == 'Updater' and f.name == 'update']
+    if not fs:
+        rep.analysis_broken('interpreter::Updater::update not found')
+        return
+    f = fs[0]
+    loops = [m for m in f.walk() if m['k'] == 'ForStmt']
+    flags = {m['name'] for m in f.walk() if m['k'] == 'VarDecl' and m.get('t') == 'bool' and m.get('name')}
+    bad, sets = [], 0
+    for lp in loops:
+        for m in walk(lp):
+            if m['k'] == 'BinaryOperator' and m.get('op') == '=' and strip(kids(m)[0], casts=True).get('name') in flags:
+                r = strip(kids(m)[1], casts=True)
+                while r['k'] == 'ParenExpr' and kids(r):
+                    r = strip(kids(r)[0], casts=True)
+                if r['k'] == 'CXXBoolLiteralExpr' and r.get('val'):
+                    sets += 1
+                elif r['k'] == 'BinaryOperator' and r.get('op') == '||' and any(strip(x, casts=True).get('name') in flags for x in kids(r)):
+                    sets += 1
+                else:
+                    bad.append(m)
+    returned = any(m['k'] == 'ReturnStmt' and kids(m) and strip(kids(m)[0], casts=True).get('name') in flags for m in f.walk())
+    ok = not bad and sets >= 1 and returned
+    rep.ob('R4-updater-change-flag-monotone', 'interpreter/Updater::update', ok, f.loc(bad[0]) if bad else f.where,
+           '' if ok else 'the change flag is overwritten per column (line %s): it then reflects the LAST lattice column only, and an update of an earlier '
+           'column is not propagated to the other indexes' % (bad[0].get('l') if bad else '?'))
+    # synthesiser: the generated updater sets `changed = true` under `if (old_t[i] != new_t[i])` and never clears it
+    g = [x for x in rel.functions if x.name == 'generateTypeStruct' and not x.is_lambda and 'DirectRelation' in x.qname]
+    if g:
+        lits = ''.join(m.get('str', '') for m in g[0].walk() if m['k'] == 'StringLiteral').replace(' ', '')
+        ok = 'changed=true;' in lits and 'changed=false;' not in lits.replace('boolchanged=false;', '') and 'returnchanged;' in lits
+        rep.ob('R4-updater-change-flag-monotone', 'synthesiser/updater', ok, g[0].where, '' if ok else 'the generated updater clears or never sets its change flag')
+
+
+def rule_entry_paths(rep):
+    """R5: every way tuples enter a relation with lattice attributes goes through the lub sequence.  Rule heads do (R1-R3).  The other entry
+    is the fact loader: the translator's load statement (or a semantic check forbidding .input on such relations) must take the lattice
+    attributes into account -- the relation's updater OVERWRITES the stored value."""
+    from engine.facts import walk, is_call
+    from props.parallel_guard import guarded_by, not_guarded_by
+    ut, sc = facts.extract([('src/ast2ram/seminaive/UnitTranslator.cpp', r'seminaive/UnitTranslator\.cpp$', r'generateLoadRelation'),
+                            ('src/ast/transform/SemanticChecker.cpp', r'transform/SemanticChecker\.cpp$', r'SemanticCheckerImpl::', None, None, r'getIsLattice|getAuxiliaryArity')])
+    rep.add_units([ut, sc])
+    fs = [f for f in ut.functions if f.name == 'generateLoadRelation' and not f.is_lambda]
+    if not fs:
+        rep.analysis_broken('UnitTranslator::generateLoadRelation not found')
+        return
+    lat = lambda core: any(is_call(x) and x.get('cn') in ('getIsLattice', 'getAuxiliaryArity') for x in walk(core))
+    in_loader = any(is_call(m) and m.get('cn') in ('getIsLattice', 'getAuxiliaryArity', 'generateStratumLubSequence') for m in fs[0].walk())
+    in_checker = False
+    for g in sc.functions:
+        if g.is_lambda or g.cfg is None:
+            continue
+        for e in [m for m in g.walk() if is_call(m, 'addError')]:
+            l = guarded_by(g, e, lat)[0] or not_guarded_by(g, e, lat)
+            io = guarded_by(g, e, lambda core: any(is_call(x, 'isInput') or is_call(x, 'isIO') for x in walk(core)))[0]
+            if l and io:
+                in_checker = True
+    ok = in_loader or in_checker
+    rep.ob('R5-every-entry-path-lubbed', 'io-load', ok, fs[0].where,
+           '' if ok else 'facts loaded by .input into a relation with lattice attributes bypass the lub sequence: the last loaded fact per key wins, and a '
+           'value derived by a rule overwrites a loaded one instead of being joined with it')
+
+
 def analyse(rep):
     sh = S.Shapes(rep)
+    rule_updater_flag(rep)
+    rule_entry_paths(rep)
     S.rule_lub_sequence(rep, sh)
     S.rule_table_updates(rep, sh, want=('lattice',))
     # call sites: non-recursive stratum and preamble run the lub sequence outside the loop
